@@ -118,6 +118,56 @@ def mode_decision(ctx, repo, rule):
     ctx.floor(rule, "device on/off valuations", n, 12)
 
 
+def periodic_update_keeps_the_mode(ctx, repo, rule):
+    """the facade's periodic update on a model facade (devices with fixed on/off states, a spa that answers pings or does
+    not, water care and reminders stand-ins): one pass of the loop is interpreted (the second sleep ends it).  Whatever
+    the pass does, every configuration switch it makes is set_config_mode(any pump or blower on) - the update may
+    re-evaluate the mode, it may not decide it by anything else (a quiet spa, the time of day ...)."""
+    f = repo.method("GeckoAsyncFacade", "_facade_update")
+    n = 0
+    for pumps, blowers in (((True,), ()), ((False,), (True,)), ((False, False), (False,)), ((), ())):
+        for responding in (True, False):
+            got, sleeps = [], []
+            interp = Interp(repo, max_depth=10)
+
+            def hook(it, node, callee, args, kwargs, got=got, sleeps=sleeps):
+                fn = getattr(node, "func", None)
+                nm = fn.id if isinstance(fn, ast.Name) else (fn.attr if isinstance(fn, ast.Attribute) else "")
+                if nm == "set_config_mode":
+                    got.append(args[0] if args else kwargs.get("active"))
+                    return None
+                if nm in ("config_sleep", "sleep"):
+                    sleeps.append(1)
+                    if len(sleeps) > 1:
+                        raise PyRaise("asyncio.CancelledError", node)
+                    return None
+                return NotImplemented
+            interp.call_hook = hook
+            mk = lambda on: Obj(None, {"is_on": on}, name="device")  # noqa: E731
+            attrs = init_defaults(repo, "GeckoAsyncFacade")
+            spa = Obj(None, {"is_responding_to_pings": responding, "is_connected": True, "async_get_watercare": Native(lambda a, k: 1, "async_get_watercare"),
+                             "async_get_reminders": Native(lambda a, k: [], "async_get_reminders")}, name="spa")
+            sink = lambda nm: Obj(None, {"change_watercare_mode": Native(lambda a, k: None), "change_reminders": Native(lambda a, k: None)}, name=nm)  # noqa: E731
+            attrs.update({"_pumps": [mk(x) for x in pumps], "_blowers": [mk(x) for x in blowers], "_lights": [mk(True)], "_spa": spa,
+                          "_water_care": sink("water-care"), "_reminders_manager": sink("reminders")})
+            me = Obj(repo.cls("GeckoAsyncFacade"), attrs)
+            try:
+                interp.call(f, me, [])
+            except PyRaise as e:
+                if "CancelledError" not in e.what:
+                    got.append(f"raises {e.what}")
+            except Undecided as e:
+                raise AnalysisError(f"{f.qual} on the model facade: {e}")
+            want = any(pumps) or any(blowers)
+            n += 1
+            ok = all(isinstance(g, bool) and g == want for g in got) and (not responding or len(got) >= 1)
+            ctx.ob(rule, f"{f.qual}::pumps={list(pumps)}::blowers={list(blowers)}::responding={responding}", ok,
+                   f"{f.qual}, one pass with pumps on={list(pumps)}, blowers on={list(blowers)}, spa {'answering' if responding else 'not answering'} pings: configuration switches {got} - "
+                   f"expected only set_config_mode({want}) (and at least one while the spa answers): the facade selects the active table exactly when some pump or blower is on", f.loc,
+                   sample={"rule": rule, "pumps": list(pumps), "blowers": list(blowers), "responding": responding, "switches": [str(g) for g in got]} if n % 3 == 1 else None)
+    ctx.floor(rule, "periodic-update passes interpreted", n, 8)
+
+
 # ------------------------------------------------------------------------------------------------ C13.R1/R2
 def switch_commands(ctx, repo, rule_idle, rule_one):
     cls = repo.cls("GeckoSwitch")
